@@ -5,4 +5,6 @@ import Props.C04
 #print axioms Webauthn.Props.C04.unchecked_when_no_anchor
 #print axioms Webauthn.Props.C04.rootsFor_text
 #print axioms Webauthn.Props.C04.no_builtin_roots
+#print axioms Webauthn.Props.C04.signer_is_validated_leaf
+#print axioms Webauthn.Props.C04.android_key_root_is_anchor
 #print axioms Webauthn.validateChainReg_ok
